@@ -646,4 +646,187 @@ theorem unfold_of_cells_eq {h h' : Heap} {B : Nat → Prop}
         (fun r hr => ih r (hcl b c hb hc r hr))
       simp only [this]
 
+
+/-! ### Interleaved histories of two sides -/
+
+theorem apply_set_length (h : Heap) (a i : Nat) (v : FVal) :
+    (Write.apply h (.set a i v)).length = h.length := by
+  simp only [Write.apply]
+  cases h[a]? <;> simp
+
+theorem apply_set_self_congr {h1 h2 : Heap} {a i : Nat} {v : FVal} (he : h1[a]? = h2[a]?) :
+    (Write.apply h1 (.set a i v))[a]? = (Write.apply h2 (.set a i v))[a]? := by
+  cases hc : h1[a]? with
+  | none =>
+    have hc2 : h2[a]? = none := he ▸ hc
+    simp only [Write.apply, hc, hc2]
+  | some c =>
+    have hc2 : h2[a]? = some c := he ▸ hc
+    have l1 := lt_length_of_getElem? hc
+    have l2 := lt_length_of_getElem? hc2
+    simp only [Write.apply, hc, hc2, List.getElem?_set_self l1, List.getElem?_set_self l2]
+
+/-- After an overwrite confined to a reference-closed region the region is still closed. -/
+theorem closed_after_set {h : Heap} {A : Nat → Prop} {a i : Nat} {v : FVal}
+    (hcl : ∀ x c, A x → h[x]? = some c → ∀ r, FVal.ref (some r) ∈ c.fields → A r)
+    (hv : ∀ r, v = .ref (some r) → A r) :
+    ∀ x c, A x → (Write.apply h (.set a i v))[x]? = some c → ∀ r, FVal.ref (some r) ∈ c.fields → A r := by
+  intro x c hx hc r hr
+  by_cases hxa : x = a
+  · subst hxa
+    cases hc0 : h[x]? with
+    | none =>
+      simp only [Write.apply, hc0] at hc
+      cases hc
+    | some c0 =>
+      have l0 := lt_length_of_getElem? hc0
+      simp only [Write.apply, hc0, List.getElem?_set_self l0, Option.some.injEq] at hc
+      subst hc
+      rcases List.mem_or_eq_of_mem_set hr with hm | hm
+      · exact hcl x c0 hx hc0 r hm
+      · exact hv r hm.symm
+  · rw [apply_set_other h a i v hxa] at hc
+    exact hcl x c hx hc r hr
+
+/-- **Non-interference for interleaved histories.** Two sides own disjoint regions `A` and `B`
+(`A` closed under references) and take turns writing, each inside its own region, allocating as
+they go.  Then on the left side's region — grown by its own allocations — the final heap is, cell
+by cell, the heap the left side would have produced alone (`projLeft`).  By induction on the
+history. -/
+theorem interleaved_left :
+    ∀ (ws : List (Bool × Write)) (A B : Nat → Prop) (h1 h2 : Heap),
+    h1.length = h2.length → (∀ x, A x → h1[x]? = h2[x]?) →
+    (∀ x, A x → x < h1.length) → (∀ x, B x → x < h1.length) → (∀ x, A x → ¬ B x) →
+    (∀ x c, A x → h2[x]? = some c → ∀ r, FVal.ref (some r) ∈ c.fields → A r) →
+    Confined2 A B h1 ws →
+    ∃ A' : Nat → Prop, (∀ x, A x → A' x) ∧
+      (∀ x, A' x → (applyAll h1 (ws.map Prod.snd))[x]? = (applyAll h2 (projLeft ws))[x]?) ∧
+      (∀ x c, A' x → (applyAll h2 (projLeft ws))[x]? = some c →
+        ∀ r, FVal.ref (some r) ∈ c.fields → A' r) := by
+  intro ws
+  induction ws with
+  | nil =>
+    intro A B h1 h2 _ hag _ _ _ hcl _
+    exact ⟨A, fun _ hx => hx, hag, hcl⟩
+  | cons sw ws ih =>
+    intro A B h1 h2 hlen hag hA hB hdis hcl hconf
+    obtain ⟨side, w⟩ := sw
+    cases side with
+    | true =>
+      cases w with
+      | set a i v =>
+        obtain ⟨hAa, hv, hrest⟩ := hconf
+        have hlen' : (Write.apply h1 (.set a i v)).length = (Write.apply h2 (.set a i v)).length := by
+          rw [apply_set_length, apply_set_length, hlen]
+        have hag' : ∀ x, A x → (Write.apply h1 (.set a i v))[x]? = (Write.apply h2 (.set a i v))[x]? := by
+          intro x hx
+          by_cases hxa : x = a
+          · subst hxa
+            exact apply_set_self_congr (hag x hx)
+          · rw [apply_set_other h1 a i v hxa, apply_set_other h2 a i v hxa]
+            exact hag x hx
+        have := ih A B _ _ hlen' hag'
+          (fun x hx => by rw [apply_set_length]; exact hA x hx)
+          (fun x hx => by rw [apply_set_length]; exact hB x hx) hdis
+          (closed_after_set hcl hv) hrest
+        simpa only [applyAll, List.map_cons, List.foldl_cons, projLeft] using this
+      | alloc c =>
+        obtain ⟨hc, hrest⟩ := hconf
+        have hlen' : (h1 ++ [c]).length = (h2 ++ [c]).length := by simp [hlen]
+        have hag' : ∀ x, (A x ∨ x = h1.length) → (h1 ++ [c])[x]? = (h2 ++ [c])[x]? := by
+          intro x hx
+          rcases hx with hx | hx
+          · rw [List.getElem?_append_left (hA x hx), List.getElem?_append_left (hlen ▸ hA x hx)]
+            exact hag x hx
+          · subst hx
+            rw [List.getElem?_concat_length, hlen, List.getElem?_concat_length]
+        have hcl' : ∀ x c', (A x ∨ x = h1.length) → (h2 ++ [c])[x]? = some c' →
+            ∀ r, FVal.ref (some r) ∈ c'.fields → (A r ∨ r = h1.length) := by
+          intro x c' hx hc' r hr
+          rcases hx with hx | hx
+          · rw [List.getElem?_append_left (hlen ▸ hA x hx)] at hc'
+            exact Or.inl (hcl x c' hx hc' r hr)
+          · subst hx
+            rw [hlen, List.getElem?_concat_length] at hc'
+            cases hc'
+            exact Or.inl (hc r hr)
+        have := ih (fun x => A x ∨ x = h1.length) B _ _ hlen' hag'
+          (fun x hx => by
+            rw [List.length_append]
+            rcases hx with hx | hx
+            · have := hA x hx; simp; omega
+            · simp; omega)
+          (fun x hx => by have := hB x hx; simp; omega)
+          (fun x hx hb => by
+            rcases hx with hx | hx
+            · exact hdis x hx hb
+            · have := hB x hb; omega)
+          hcl' hrest
+        obtain ⟨A', hsub, h1', h2'⟩ := this
+        refine ⟨A', fun x hx => hsub x (Or.inl hx), ?_, ?_⟩
+        · simpa only [applyAll, List.map_cons, List.foldl_cons, projLeft, Write.apply] using h1'
+        · simpa only [applyAll, List.map_cons, List.foldl_cons, projLeft, Write.apply] using h2'
+    | false =>
+      cases w with
+      | set b i v =>
+        obtain ⟨hBb, _, hrest⟩ := hconf
+        have hlen' : (Write.apply h1 (.set b i v)).length = h2.length := by
+          rw [apply_set_length, hlen]
+        have hag' : ∀ x, A x → (Write.apply h1 (.set b i v))[x]? = h2[x]? := by
+          intro x hx
+          have hxb : x ≠ b := fun e => hdis x hx (e ▸ hBb)
+          rw [apply_set_other h1 b i v hxb]
+          exact hag x hx
+        have := ih A B _ h2 hlen' hag'
+          (fun x hx => by rw [apply_set_length]; exact hA x hx)
+          (fun x hx => by rw [apply_set_length]; exact hB x hx) hdis hcl hrest
+        simpa only [applyAll, List.map_cons, List.foldl_cons, projLeft] using this
+      | alloc c =>
+        obtain ⟨_, hrest⟩ := hconf
+        have hlen' : (h1 ++ [c]).length = (h2 ++ [(⟨none, []⟩ : Cell)]).length := by simp [hlen]
+        have hag' : ∀ x, A x → (h1 ++ [c])[x]? = (h2 ++ [(⟨none, []⟩ : Cell)])[x]? := by
+          intro x hx
+          rw [List.getElem?_append_left (hA x hx), List.getElem?_append_left (hlen ▸ hA x hx)]
+          exact hag x hx
+        have hcl' : ∀ x c', A x → (h2 ++ [(⟨none, []⟩ : Cell)])[x]? = some c' →
+            ∀ r, FVal.ref (some r) ∈ c'.fields → A r := by
+          intro x c' hx hc' r hr
+          rw [List.getElem?_append_left (hlen ▸ hA x hx)] at hc'
+          exact hcl x c' hx hc' r hr
+        have := ih A (fun x => B x ∨ x = h1.length) _ _ hlen' hag'
+          (fun x hx => by have := hA x hx; simp; omega)
+          (fun x hx => by
+            rcases hx with hx | hx
+            · have := hB x hx; simp; omega
+            · simp; omega)
+          (fun x hx hb => by
+            rcases hb with hb | hb
+            · exact hdis x hx hb
+            · have := hA x hx; omega)
+          hcl' hrest
+        simpa only [applyAll, List.map_cons, List.foldl_cons, projLeft, Write.apply] using this
+
+
+/-- Exchange the two sides of an interleaved history. -/
+def swapSides (ws : List (Bool × Write)) : List (Bool × Write) := ws.map fun p => (!p.1, p.2)
+
+theorem swapSides_snd (ws : List (Bool × Write)) : (swapSides ws).map Prod.snd = ws.map Prod.snd := by
+  simp [swapSides, List.map_map, Function.comp_def]
+
+theorem Confined2.swap : ∀ (ws : List (Bool × Write)) (A B : Nat → Prop) (h : Heap),
+    Confined2 A B h ws → Confined2 B A h (swapSides ws) := by
+  intro ws
+  induction ws with
+  | nil => intros; trivial
+  | cons sw ws ih =>
+    intro A B h hc
+    obtain ⟨side, w⟩ := sw
+    cases side <;> cases w with
+    | set a i v =>
+      obtain ⟨h1, h2, h3⟩ := hc
+      exact ⟨h1, h2, ih _ _ _ h3⟩
+    | alloc c =>
+      obtain ⟨h1, h2⟩ := hc
+      exact ⟨h1, ih _ _ _ h2⟩
+
 end InfluxQL.Heap
